@@ -251,9 +251,11 @@ class JinjaInterp:
                     if isinstance(n, ast.Assign) and len(n.targets) == 1 and isinstance(n.targets[0], ast.Name) \
                             and isinstance(n.value, ast.Call) and (dotted(n.value.func) or "").endswith("get_template"):
                         nm = py.ev(n.value.args[0], final) if n.value.args else BOTTOM
-                        names = {c for c in (nm.consts or ()) if isinstance(c, str)}
+                        names = py.str_consts(nm)
                         if not names:
-                            raise AnalysisError(f"get_template with non-constant name at {f.module.rel}:{n.lineno}")
+                            if any(kw.arg == "globals" for kw in n.value.keywords):
+                                raise AnalysisError(f"get_template(..., globals=...) with a name that cannot be enumerated at {f.module.rel}:{n.lineno}")
+                            continue  # which templates are rendered is taken from the interpreter's render log below
                         tpl_vars.setdefault(n.targets[0].id, set()).update(names)
                         for kw in n.value.keywords:
                             if kw.arg == "globals" and isinstance(kw.value, ast.Dict):
